@@ -208,6 +208,13 @@ type GenConfig struct {
 	// remove+re-insert / insert+remove sequences or a differently ordered equivalent), finalizes
 	// that root and keeps using the long-lived tree afterwards.
 	KeptTree bool
+	// PrefixChurn (with KeptTree): no second tree commits the same root; the long-lived tree's
+	// candidate is finalized in most versions and its writes follow structural patterns of the
+	// trie across consecutive finalized versions: a stand-alone leaf K becomes the embedded leaf
+	// of an internal node (a key with the proper prefix K is inserted) and stand-alone again (all
+	// longer keys are removed), an embedded leaf is removed / re-added while longer keys stay, a
+	// leaf becomes the root node (all other keys removed) and stops being the root.
+	PrefixChurn bool
 	// Clean avoids the shapes that are already known to damage the hashed badger backend
 	// (DESIGN.md section 6 D4/D5 and the committed empty root), so that such histories run to
 	// their end on badger too: no candidate re-creates a pair that its parent already has, IO
@@ -386,6 +393,80 @@ func (g *genState) ioCandidate(stateNow map[string]string, stateCands []map[stri
 	return w
 }
 
+// churn generates the writes of the long-lived tree's candidate in PrefixChurn mode.
+func (g *genState) churn(base map[string]string) []WOp {
+	r := g.rng
+	keys := sortedKeys(base)
+	ext := map[string][]string{} // key -> keys having it as a proper prefix
+	var withExt, noExt []string
+	for _, k := range keys {
+		for _, o := range keys {
+			if len(o) > len(k) && strings.HasPrefix(o, k) {
+				ext[k] = append(ext[k], o)
+			}
+		}
+		if len(ext[k]) > 0 {
+			withExt = append(withExt, k)
+		} else {
+			noExt = append(noExt, k)
+		}
+	}
+	suffix := func() []byte { return [][]byte{[]byte("x"), {0x00}, []byte("xy"), {0x80}, {0xff, 0x01}}[r.IntN(5)] }
+	var w []WOp
+	acts := 1 + r.IntN(2)
+	for a := 0; a < acts; a++ {
+		switch c := r.IntN(10); {
+		case len(keys) < 3:
+			// grow (a root leaf stops being the root)
+			w = append(w, WOp{K: g.key(), V: g.val()}, WOp{K: append([]byte("m"), g.key()...), V: g.val()})
+		case c <= 2 && len(withExt) > 0:
+			// un-embed: remove every longer key of K, K's leaf becomes a stand-alone child again
+			k := withExt[r.IntN(len(withExt))]
+			if len(ext[k]) <= 3 && k != "" {
+				for _, o := range ext[k] {
+					w = append(w, WOp{Del: true, K: []byte(o)})
+				}
+				continue
+			}
+			fallthrough
+		case c <= 5 && len(noExt) > 0:
+			// embed: insert a key that has the stand-alone leaf K as a proper prefix
+			k := noExt[r.IntN(len(noExt))]
+			w = append(w, WOp{K: append([]byte(k), suffix()...), V: g.val()})
+		case c == 6 && len(withExt) > 0:
+			// remove the embedded leaf itself, the longer keys stay
+			w = append(w, WOp{Del: true, K: []byte(withExt[r.IntN(len(withExt))])})
+		case c == 7:
+			// (re-)add a proper prefix of an existing key: it is created as an embedded leaf
+			k := keys[r.IntN(len(keys))]
+			if len(k) > 1 {
+				p := k[:1+r.IntN(len(k)-1)]
+				if _, ok := base[p]; !ok {
+					w = append(w, WOp{K: []byte(p), V: g.val()})
+					continue
+				}
+			}
+			w = append(w, WOp{K: g.key(), V: g.val()})
+		case c == 8 && len(keys) <= 5:
+			// a single leaf becomes the root node
+			keep := keys[r.IntN(len(keys))]
+			for _, k := range keys {
+				if k != keep {
+					w = append(w, WOp{Del: true, K: []byte(k)})
+				}
+			}
+			return w
+		default:
+			if r.IntN(2) == 0 && len(keys) > 4 {
+				w = append(w, WOp{Del: true, K: []byte(keys[r.IntN(len(keys))])})
+			} else {
+				w = append(w, WOp{K: g.key(), V: g.val()})
+			}
+		}
+	}
+	return w
+}
+
 // ioCandidateMode applies the Clean restrictions to an IO candidate.
 func (g *genState) ioCandidateMode(stateNow map[string]string, stateCands []map[string]string) []WOp {
 	w := g.ioCandidate(stateNow, stateCands)
@@ -495,7 +576,11 @@ func Generate(rng *rand.Rand, cfg GenConfig) *History {
 			w := g.stateCandidate(g.state, stateW)
 			base := g.state
 			op := Op{Kind: KCommit, Ver: ver, Type: TState, Cand: cand, Parent: ParentPrev}
-			if cfg.KeptTree && s == 0 {
+			if cfg.KeptTree && cfg.PrefixChurn && s == 0 {
+				op.Tree = 1
+				w = g.churn(g.state)
+			}
+			if cfg.KeptTree && !cfg.PrefixChurn && s == 0 {
 				op.Tree = 1
 				if rng.IntN(3) == 0 {
 					// The kept tree makes writes whose net effect a fresh tree reaches differently.
@@ -582,6 +667,9 @@ func Generate(rng *rand.Rand, cfg GenConfig) *History {
 		fi := rng.IntN(len(stateIDs))
 		if twin >= 0 {
 			fi = twin
+		}
+		if cfg.KeptTree && cfg.PrefixChurn && rng.IntN(8) != 0 {
+			fi = 0 // the long-lived tree's candidate
 		}
 		final := []int{stateIDs[fi]}
 		if len(ioIDs) > 0 && rng.IntN(8) != 0 {
